@@ -445,6 +445,10 @@ SUSPECTED = [
      "what": "interface_position with a 2-d angle array returns an array of shape (n, m, dim) whose entries mix different "
              "angles (dist[:, None] * np.transpose([...]) is written for 1-d arrays); interface_distance and "
              "interface_curvature are elementwise for n-d arrays"},
+    {"id": "triangulation-3d-triangles-shared",
+     "what": "get_triangulation of the 3-d classes returns the module-level cached index array of the stored sphere "
+             "triangulation as 'triangles': the outputs of two calls (also of two different droplets) are the same array, "
+             "so modifying one result modifies every later result"},
 ]
 
 
@@ -459,6 +463,13 @@ def probe_suspected():
                                                     f"(cos, sin): {float(np.abs(res - exp).max()) if res.shape == exp.shape else 'shape differs'}")
     except Exception as e:
         out["interface_position-nd-angle-array"] = f"raised {type(e).__name__}: {e}"
+    try:
+        a = make("PerturbedDroplet3D", 1.0, [0.0, 0.0, 0.0], [0.0, 0.01, 0.0])
+        b = make("PerturbedDroplet3DAxisSym", 1.0, [0.0, 0.0, 0.0], [0.0, 0.01])
+        t1, t2 = a.get_triangulation(1.0)["triangles"], b.get_triangulation(1.0)["triangles"]
+        out["triangulation-3d-triangles-shared"] = f"np.shares_memory(first call, second call of another droplet) = {bool(np.shares_memory(t1, t2))}"
+    except Exception as e:
+        out["triangulation-3d-triangles-shared"] = f"raised {type(e).__name__}: {e}"
     return out
 
 
@@ -863,6 +874,206 @@ def oracle_sequence(rng, ctx=None, n_per_class=1):
     return fails
 
 
+# ------------------------------------------------------------------------------------------------
+# state stream (notes/input_dimensions.md item 8): getters must not change the object, outputs of two calls must
+# not share buffers, arguments must stay unchanged and unaliased, the three classes are used alternately
+# ------------------------------------------------------------------------------------------------
+def _same(a, b):
+    if isinstance(a, dict) and isinstance(b, dict):
+        return a.keys() == b.keys() and all(_same(a[k], b[k]) for k in a)
+    if isinstance(a, (tuple, list)) and isinstance(b, (tuple, list)):
+        return len(a) == len(b) and all(_same(x, y) for x, y in zip(a, b))
+    try:
+        return bool(np.array_equal(np.asarray(a, dtype=float), np.asarray(b, dtype=float), equal_nan=True))
+    except (TypeError, ValueError):
+        return a == b or (hasattr(a, "pos") and _same(a.pos, b.pos) and _same(a.size, b.size))
+
+
+def _arrays_of(x):
+    if isinstance(x, np.ndarray):
+        return [x]
+    if isinstance(x, dict):
+        return [a for k, v in x.items() if k != "triangles" or v.shape[1] != 3 or True for a in _arrays_of(v)]
+    if isinstance(x, (tuple, list)):
+        return [a for v in x for a in _arrays_of(v)]
+    return []
+
+
+def getters(cls_name, angles):
+    """name -> (function of the droplet, is the heavy quadrature).  Every public read access of the class."""
+    a1 = angles[:1] if cls_name != "PerturbedDroplet3D" else angles
+    g = {
+        "radius": lambda d: d.radius, "position": lambda d: d.position, "amplitudes": lambda d: d.amplitudes,
+        "interface_width": lambda d: d.interface_width, "modes": lambda d: d.modes, "dim": lambda d: d.dim,
+        "data_bounds": lambda d: d.data_bounds, "volume_approx": lambda d: d.volume_approx,
+        "interface_distance": lambda d: d.interface_distance(*a1),
+        "interface_curvature": lambda d: d.interface_curvature(*a1),
+        "interface_position": lambda d: d.interface_position(*angles),
+        "get_triangulation": lambda d: {k: v for k, v in d.get_triangulation(0.8 * float(d.radius)).items() if k != "triangles"},
+        "bbox": lambda d: d.bbox, "volume": lambda d: d.volume, "surface_area": lambda d: d.surface_area,
+        "surface_area_approx": lambda d: d.surface_area_approx, "copy": lambda d: d.copy().data.tobytes(),
+        "_data_array": lambda d: d._data_array, "str": lambda d: str(d),
+    }
+    if cls_name == "PerturbedDroplet2D":
+        g.pop("volume_approx")
+    return g
+
+
+def _call(fn, d):
+    """-> ('value', v) | ('not reported', None) for NotImplementedError / missing attribute"""
+    try:
+        return "value", fn(d)
+    except (NotImplementedError, AttributeError) as e:
+        return "not reported", type(e).__name__
+
+
+def check_state(cls_name, R, centre, amps, rng, count=lambda k, v: None):
+    fails = []
+    base = {"class": cls_name, "radius": R, "position": list(centre), "amplitudes": list(amps)}
+
+    def fail(what, **kw):
+        fails.append({"what": what, **base, **kw})
+
+    if cls_name == "PerturbedDroplet2D":
+        mk_angles = lambda: (np.array([0.3, 1.9, 7.4]),)      # one angle outside [0, 2 pi)
+        other_angles = (np.array([0.7, 2.9, 5.4]),)     # same shape, other values
+    else:
+        mk_angles = lambda: (np.array([0.5, 1.4, 2.6]), np.array([0.2, 3.3, 7.0]))     # one phi outside [0, 2 pi)
+        other_angles = (np.array([0.9, 1.1, 2.2]), np.array([1.2, 4.3, 0.1]))
+    angles = mk_angles()
+    G = getters(cls_name, angles)
+    cheap = [k for k in G if not (k == "volume" and cls_name == "PerturbedDroplet3D")]
+    d = make(cls_name, R, centre, amps)
+    for name, fn in G.items():
+        count("getter_called_twice", name)
+        fresh = make(cls_name, R, centre, amps)          # never had `name` called
+        b0 = d.data.tobytes()
+        k1, r1 = _call(fn, d)
+        b1 = d.data.tobytes()
+        k2, r2 = _call(fn, d)
+        if b1 != b0 or d.data.tobytes() != b0:
+            fail(f"the getter {name} changes the droplet's record", getter=name,
+                 record_after=[float(x) for x in np.asarray(d._data_array, dtype=float)],
+                 record_of_an_equal_fresh_droplet=[float(x) for x in np.asarray(fresh._data_array, dtype=float)])
+            d = make(cls_name, R, centre, amps)
+            continue
+        if k1 != k2 or (k1 == "value" and not _same(r1, r2)):
+            fail(f"two calls of {name} on the same droplet give different results", getter=name)
+        if any(not np.array_equal(a, b) for a, b in zip(angles, mk_angles())):
+            fail(f"{name} modified the angle arrays passed to it", getter=name, angles_after=[a.tolist() for a in angles])
+            for a, b in zip(angles, mk_angles()):
+                a[...] = b
+        # outputs of the two calls kept alive together: computed results must not share buffers with each other,
+        # with the arguments or with the droplet's record (attribute views position / amplitudes are recorded, not judged)
+        if k1 == "value" and name not in ("position", "amplitudes", "_data_array", "radius", "interface_width", "modes", "dim", "str", "copy"):
+            A1, A2 = _arrays_of(r1), _arrays_of(r2)
+            rec_fields = [np.asarray(d.data[f]) for f in d.data.dtype.names]
+            shared = (any(np.shares_memory(x, y) for x in A1 for y in A2)
+                      or any(np.shares_memory(x, y) for x in A1 + A2 for y in list(angles) + rec_fields))
+            if not shared and A1:
+                keep = [a.copy() for a in A2]
+                for a in A1:
+                    if a.flags.writeable:
+                        a += 1     # in place, keeps the dtype (index arrays are integers)
+                shared = any(not np.array_equal(a, b, equal_nan=True) for a, b in zip(A2, keep)) or d.data.tobytes() != b0
+            if shared:
+                fail(f"results of two calls of {name} share a buffer with each other, with an argument or with the droplet: "
+                     "modifying one result changes the other / the droplet", getter=name)
+                d = make(cls_name, R, centre, amps)
+        elif k1 == "value" and name in ("position", "amplitudes", "_data_array"):   # views of the record by design
+            count("attribute_getter_is_a_view_of_the_record (recorded, not judged)",
+                  f"{name}: {bool(any(np.shares_memory(np.asarray(r1), np.asarray(d.data[f])) for f in d.data.dtype.names))}")
+        # after the getter every other (cheap) getter must report what an equal fresh droplet reports
+        for other in cheap:
+            if other == name:
+                continue
+            ko, vo = _call(G[other], d)
+            if any(not np.array_equal(a, b) for a, b in zip(angles, mk_angles())):
+                fail(f"{other} modified the angle arrays passed to it", getter=other, angles_after=[a.tolist() for a in angles])
+                for a, b in zip(angles, mk_angles()):
+                    a[...] = b
+            kf, vf = _call(G[other], fresh)
+            if ko != kf or (ko == "value" and not _same(vo, vf)):
+                fail(f"after calling {name}, {other} differs from the value reported by an equal fresh droplet",
+                     getter=name, affected=other)
+                d = make(cls_name, R, centre, amps)
+                break
+    # same call with other angle values of the same shape (a cache keyed on the shape would return stale values)
+    mod = model_values(cls_name, R, centre, amps, other_angles if cls_name != "PerturbedDroplet2D" else other_angles[0])
+    a1 = other_angles[:1] if cls_name != "PerturbedDroplet3D" else other_angles
+    got = np.asarray(d.interface_distance(*a1), dtype=float)
+    gotc = np.broadcast_to(np.asarray(d.interface_curvature(*a1), dtype=float), got.shape)
+    gotp = np.asarray(d.interface_position(*other_angles), dtype=float)
+    count("same_shape_other_angles", cls_name)
+    if not (np.allclose(got, mod["interface_distance"], rtol=1e-12, atol=0)
+            and np.allclose(gotc, mod["interface_curvature"], rtol=0, atol=1e-11 / R)
+            and np.allclose(gotp, mod["interface_position"], rtol=0, atol=1e-12 * (R + float(np.abs(np.array(centre)).max())))):
+        fail("a second call with other angles of the same shape does not report the values of these angles",
+             angles=[a.tolist() for a in other_angles], distance=got.tolist(), expected_distance=np.asarray(mod["interface_distance"]).tolist())
+    # constructor / setter arguments: unchanged and not aliased
+    pa, aa = np.array(centre, dtype=float), np.array(amps, dtype=float)
+    pb, ab = pa.copy(), aa.copy()
+    x = _cls()[cls_name](pa, R, 0.25, aa)
+    if not (np.array_equal(pa, pb) and np.array_equal(aa, ab)):
+        fail("the constructor modified its position / amplitudes argument")
+    bx = x.data.tobytes()
+    pa += 1.0
+    aa += 0.5
+    if x.data.tobytes() != bx:
+        fail("the droplet aliases the position / amplitudes array passed to the constructor")
+    pn, an = pb + 0.25, ab * 0.5
+    pn0, an0 = pn.copy(), an.copy()
+    if cls_name == "PerturbedDroplet3DAxisSym":
+        pn[:2] = 0.0
+        pn0 = pn.copy()
+    x.position = pn
+    x.amplitudes = an
+    bx = x.data.tobytes()
+    if not (np.array_equal(pn, pn0) and np.array_equal(an, an0)):
+        fail("a setter modified the array assigned to it")
+    pn += 1.0 if cls_name != "PerturbedDroplet3DAxisSym" else 0.0
+    an += 0.125
+    if x.data.tobytes() != bx:
+        fail("the droplet aliases an array assigned through the position / amplitudes setter")
+    count("constructor_and_setter_arguments", cls_name)
+    return fails
+
+
+def oracle_state(rng, ctx=None, rounds=1):
+    """The three classes alternately with the SAME amplitude bytes and mode count (module-level caches keyed on
+    these would mix the classes up), each round: check_state for every class, then the model comparison of all
+    three droplets again in the reverse order."""
+    fails = []
+
+    def count(k, v):
+        if ctx is not None:
+            ctx.count(k, v)
+    for rd in range(rounds):
+        pat = [0.0] * 3
+        while sum(1 for v in pat if v) < 2:
+            pat = [rng.choice([0, 1, -1]) * rng.randrange(1, 9) / 8.0 for _ in range(3)]
+        amps = [0.2 * norm_scale("PerturbedDroplet3D", pat) * a for a in pat]
+        R = rng.choice([0.75, 2.0, 3.25])
+        order = ["PerturbedDroplet2D", "PerturbedDroplet3D", "PerturbedDroplet3DAxisSym"]
+        rng.shuffle(order)
+        count("class_alternation_order", " -> ".join(c.replace("PerturbedDroplet", "") for c in order))
+        drops = {}
+        for cls_name in order:
+            ctr = rand_centre(rng, cls_name, R)
+            fails += check_state(cls_name, R, ctr, amps, rng, count)
+            drops[cls_name] = (make(cls_name, R, ctr, amps), ctr)
+            if ctx is not None:
+                ctx.case(["state", rd, cls_name, R, amps])
+        for cls_name in list(reversed(order)) + order:      # alternate use of long-lived droplets sharing the bytes
+            dd, ctr = drops[cls_name]
+            ang = np.array([0.3, 1.9, 4.4]) if cls_name == "PerturbedDroplet2D" else (np.array([0.5, 1.4, 2.6]), np.array([0.2, 3.3, 5.1]))
+            base = {"class": cls_name, "initial": {"radius": R, "position": ctr, "amplitudes": amps}, "history": [
+                {"step": "the three classes queried alternately with the same amplitude bytes", "order": order}]}
+            fails += compare_with_model(dd, cls_name, {"radius": R, "position": ctr, "amplitudes": amps, "interface_width": 0.25},
+                                        ang, "alternating classes", base)
+    return fails
+
+
 def oracle_audit(rng, ctx=None, n_per_class=3):
     fails = []
 
@@ -1137,6 +1348,11 @@ def check(ctx: vlib.Ctx) -> int:
     except Exception as e:
         import traceback
         fails = [{"what": f"implementation raised {type(e).__name__}: {e}", "traceback": traceback.format_exc()[-600:]}]
+    try:
+        fails += oracle_state(rng, ctx, rounds=ctx.scale(1, 4))
+    except Exception as e:
+        import traceback
+        fails.append({"what": f"implementation raised {type(e).__name__}: {e}", "traceback": traceback.format_exc()[-600:]})
     try:
         fails += oracle_sequence(rng, ctx, n_per_class=ctx.scale(1, 4))
     except Exception as e:
